@@ -500,3 +500,18 @@ package lang
 //@   at call (lang.MxInterface).New#* modifies nothing
 //@   ensures imp(result == nil && called("convertDataType"), has(v.vars, name))
 //@   ensures imp(result == nil && called("convertDataType"), v.vars[name].DataType == dataType)
+
+// Fork.Execute: the scheduler is chosen by the fork's run mode exactly as documented (try -> runModeTry,
+// trypipe -> runModeTryPipe, the *err variants with the stderr flag, everything else the normal
+// scheduler), and a fork that registered a function id releases it on EVERY return path.
+//@ func (*Fork).Execute [C05 C28]
+//@   check none
+//@   scope functional
+//@   requires fork != nil
+//@   at call runModeNormal#1 assert fork.RunMode == runmode.Default || fork.RunMode == runmode.Normal
+//@   at call runModeNormal#2 assert fork.RunMode == runmode.BlockUnsafe || fork.RunMode == runmode.FunctionUnsafe || fork.RunMode == runmode.ModuleUnsafe
+//@   at call runModeTry#1 assert (fork.RunMode == runmode.BlockTry || fork.RunMode == runmode.FunctionTry || fork.RunMode == runmode.ModuleTry) && arg1 == _TRY_EXIT_NUM
+//@   at call runModeTryPipe#1 assert (fork.RunMode == runmode.BlockTryPipe || fork.RunMode == runmode.FunctionTryPipe || fork.RunMode == runmode.ModuleTryPipe) && arg1 == _TRY_EXIT_NUM
+//@   at call runModeTry#2 assert (fork.RunMode == runmode.BlockTryErr || fork.RunMode == runmode.FunctionTryErr || fork.RunMode == runmode.ModuleTryErr) && arg1 == _TRY_STDERR
+//@   at call runModeTryPipe#2 assert (fork.RunMode == runmode.BlockTryPipeErr || fork.RunMode == runmode.FunctionTryPipeErr || fork.RunMode == runmode.ModuleTryPipeErr) && arg1 == _TRY_STDERR
+//@   ensures imp(old(fork.fidRegistered), called("deregisterProcess"))
